@@ -803,6 +803,25 @@ func (c *Chain) Export() (state []byte, err error) {
 	return ex.AppState, nil
 }
 
+// ExportAt runs the genesis export for a past height the way `und export --height N` does: a second application
+// object on the same database, not loading the latest version, LoadHeight(N), export.
+func (c *Chain) ExportAt(height int64) (state []byte, err error) {
+	defer func() {
+		if r := recover(); r != nil {
+			err = fmt.Errorf("export panic: %v", r)
+		}
+	}()
+	a := app.NewApp(log.NewNopLogger(), c.db, nil, false, c.appOptions(), c.baseOptions()...)
+	if err := a.LoadHeight(height); err != nil {
+		return nil, err
+	}
+	ex, err := a.ExportAppStateAndValidators(false, nil, nil)
+	if err != nil {
+		return nil, err
+	}
+	return ex.AppState, nil
+}
+
 // ModuleAddr returns the address of a module account.
 func ModuleAddr(name string) sdk.AccAddress { return authtypes.NewModuleAddress(name) }
 
